@@ -707,6 +707,9 @@ class LimitMonitor(Monitor):
         self.held = {}  # step label -> job_i that declared it inside a hold block
         self.job_label = {}
         self.max_running = 0
+        # label -> resources of the last accepted declaration (the program's own words, not
+        # what the database happens to hold for the step)
+        self.declared_res = {}
 
     def on_build_start(self, world):
         self.running.clear()
@@ -715,6 +718,8 @@ class LimitMonitor(Monitor):
         self.job_label.clear()
 
     def _resources_of(self, world, label):
+        if label in self.declared_res:
+            return dict(self.declared_res[label])
         snap = world.prev_snap
         if snap is None:
             return {}
@@ -808,6 +813,10 @@ class LimitMonitor(Monitor):
                 label = Step.adjust_label(call.args[1], workdir=_norm_wd(call.args[6]))
             except Exception:  # noqa: BLE001
                 return
+            res = call.kwargs.get("resources") if getattr(call, "kwargs", None) else None
+            if res is None and len(call.args) > 8:
+                res = call.args[8]
+            self.declared_res[label] = {k: int(v) for k, v in dict(res or {}).items()}
             if self.hold_depth.get(job, 0) > 0:
                 self.held[label] = job
                 world.count("probe.defined_under_hold")
@@ -1151,6 +1160,31 @@ class ExitStatusMonitor(Monitor):
                     f"of a build phase that was not cut short, e.g. {summary.runnable.example}",
                     "summary-runnable",
                 )
+            # what the report shows must cover what was attributed: a step attributed to a
+            # dead-end file or an unsatisfiable resource is in no bucket, so it has to be among
+            # the steps counted in that table (exact transitive counts, never smaller than the
+            # attributed ones), and each bucket shows exactly its attributed count
+            shown = {
+                0: sum(r.nblocked for r in summary.inputs) + summary.ninputs_hidden_blocked,
+                1: sum(r.nblocked for r in summary.resources) + summary.nresources_hidden_blocked,
+            }
+            for kind, name in ((0, "inputs"), (1, "resources")):
+                if totals.get(kind, 0) > shown[kind]:
+                    self.violate(
+                        "R-exit/summary",
+                        "summary-table-undercounts",
+                        f"{totals.get(kind, 0)} pending step(s) are attributed to {name} but the "
+                        f"{name} table accounts for {shown[kind]} only",
+                        f"summary-undercount-{name}",
+                    )
+            for kind, name in ((2, "failed"), (3, "deferred"), (4, "other"), (5, "runnable")):
+                if totals.get(kind, 0) != getattr(summary, name).nblocked:
+                    self.violate(
+                        "R-exit/summary",
+                        "summary-bucket",
+                        f"bucket {name} shows {getattr(summary, name).nblocked}, attributed {totals.get(kind, 0)}",
+                        f"summary-bucket-{name}",
+                    )
             for k in ("failed", "deferred", "other", "cyclic"):
                 if getattr(summary, k).nblocked:
                     world.count(f"probe.pending_bucket_{k}")
@@ -1253,6 +1287,13 @@ class OwnershipMonitor(Monitor):
                         "R-own/tree-file", "file-under-tree-other-owner",
                         f"{label} ({FNAME[snap.files[i][0]]}) lies under static tree {tl} but is owned by {snap.key(c) if c in nodes else c}",
                         "file-under-tree",
+                    )
+                elif label.startswith(tl) and role != "STATIC":
+                    # owned by the tree, but still in the role of something a step builds
+                    self.violate(
+                        "R-own/tree-file", "product-under-tree",
+                        f"{label} lies under static tree {tl} and is {FNAME[snap.files[i][0]]} (role {role})",
+                        "product-under-tree",
                     )
         if products:
             for (node, pat, rx, data) in snap.nglob.values():
@@ -1369,6 +1410,12 @@ class AtomicityMonitor(Monitor):
                 if kind == "commit":
                     # a failing request committed something
                     if name == "amend_step" and txns[-1][0] != "rollback":
+                        continue
+                    if name == "amend_step" and "injected fault" in str(getattr(result, "message", "")):
+                        # amend_step is multi-stage by design (amendment, promoted hash jobs,
+                        # availability re-check); the injected statement error hit the last,
+                        # read-only stage: an I/O error, not a rejection of the request
+                        world.count("probe.io_error_after_committed_amendment")
                         continue
                     self.violate("R-atomic/partial", "rejected-but-committed",
                                  f"{name} failed ({getattr(result, 'qualname', '?')}: {getattr(result, 'message', '')[:200]}) after committing a transaction",
